@@ -1,4 +1,4 @@
-HOOK_COMMITS = ["f359e01", "777d166", "7617359", "b305671"]
+HOOK_COMMITS = ["f359e01", "777d166", "7617359", "b305671", "d2c6b54"]
 NOT_APPLICABLE = {}
 TEXTS = {
     "C01": {
